@@ -380,6 +380,15 @@ func jsonExportAcrossHandles(c *Ctx) {
 			if err != nil || b == nil {
 				continue
 			}
+			// a handle that has not updated anything itself exports the structure as it is
+			if docA0, e1 := kk.eq.export(a); e1 == nil {
+				if docB0, e2 := kk.eq.export(b); e2 == nil {
+					if sa, sb := jsonDocState(kk.eq, c, docA0), jsonDocState(kk.eq, c, docB0); sa != "" && sb != "" && sa != sb {
+						c.fail([]string{"C10", "C09"}, kk.eq.name+"-export-through-fresh-handle", fmt.Sprintf("%s: Export through a freshly attached handle, imported again, is not the structure that Export through the creating handle gives", kk.name),
+							map[string]interface{}{"kind": kk.name, "via_creating_handle": sa, "via_attached_handle": sb})
+					}
+				}
+			}
 			more := append(randHist(c), 1, 2, 3, 4, 5)
 			kk.eq.feed(c, b, more)
 			docA, e1 := kk.eq.export(a)
